@@ -344,7 +344,10 @@ def crash_traces(ctx, chunks, n, steps, accept, alltorn=0, cont=25, seed_off=0):
 def check_C03(ctx):
     ctx.model_check("RootScan.tla", q(ctx, "MC_RootScan.cfg", "MC_RootScan_thorough.cfg"))
     ctx.model_check("FlushProto.tla", q(ctx, "MC_FlushProto.cfg", "MC_FlushProto_thorough.cfg"), workers=8, timeout=3000)
-    crash_traces(ctx, q(ctx, 6, 16), q(ctx, 2, 8), q(ctx, 60, 100), {"C03"}, alltorn=q(ctx, 0, 128))
+    # C03 subsumes durability (a crash after the last write) and rests on the
+    # append-only discipline: a flush that rewrites bytes at or below the last
+    # root record can tear into a mixture, so those categories count here too
+    crash_traces(ctx, q(ctx, 8, 16), q(ctx, 3, 8), q(ctx, 50, 100), {"C03", "C02", "C09"}, alltorn=q(ctx, 0, 128))
     return ctx.finish("model_checking",
                       "exhaustive: RootScan.tla (symbolic transcription of the backward root search) over every junk tail of <= 3 (quick) / 4 "
                       "(thorough) symbols from an adversarial alphabet (markers, fragments, wrong offsets/lengths) behind 0-2 real roots: the "
